@@ -5,6 +5,7 @@ package vtime
 import (
 	"sort"
 	"sync"
+	"sync/atomic"
 	"time"
 )
 
@@ -151,6 +152,20 @@ func Sleep(d time.Duration) {
 	}
 	time.Sleep(d)
 }
+
+// shift is what the harness has added to the repository's view of the wall clock (nanoseconds).
+var shift atomic.Int64
+
+// Shift moves the wall clock the repository's code sees (time.Now/Since/Until in rewritten files) forward by d,
+// process-wide: "two minutes later" without waiting for them. Harness code keeps the real clock.
+func Shift(d time.Duration) { shift.Add(int64(d)) }
+
+// Shifted returns the total shift applied so far.
+func Shifted() time.Duration { return time.Duration(shift.Load()) }
+
+func Now() time.Time                  { return time.Now().Add(time.Duration(shift.Load())) }
+func Since(t time.Time) time.Duration { return Now().Sub(t) }
+func Until(t time.Time) time.Duration { return t.Sub(Now()) }
 
 func After(d time.Duration) <-chan time.Time { return time.After(d) }
 func Tick(d time.Duration) <-chan time.Time  { return time.Tick(d) }
